@@ -342,4 +342,126 @@ theorem transport_safe (ds : List FnDesc) (hok : pairwiseOk ds = true) (argTys :
         · right; exact ⟨cd, hdf, by rw [← exactFit_typeFn x cd argTys hdf]; exact hdF⟩
         · exact skippable_of_compat x d argTys (Or.inr (hcpost x hx)) (Or.inl (hall x (by simp [hx])))
 
+theorem table_pairwise (hok : Gen.WireFunctions.table.all (fun e => pairwiseOk e.descs) = true)
+    (name : List Nat) (ds : List FnDesc) (h : lookupFn Gen.WireFunctions.table name = some ds) :
+    pairwiseOk ds = true := by
+  simp only [lookupFn, Option.map_eq_some_iff] at h
+  obtain ⟨e, he, rfl⟩ := h
+  exact List.all_eq_true.mp hok e (List.mem_of_find?_eq_some he)
+
+
+/-! ### whole predicates -/
+
+mutual
+theorem stripFns_ty : ∀ e, (stripFns e).ty = e.ty
+  | .leaf _ => rfl
+  | .node _ _ => rfl
+  | .call _ _ _ _ _ => rfl
+theorem tysOf_stripFnsL : ∀ es, tysOf (stripFnsL es) = tysOf es
+  | [] => rfl
+  | e :: es => by simp [stripFnsL, tysOf, stripFns_ty e, tysOf_stripFnsL es]
+end
+
+mutual
+/-- rebuilding never changes a static type -/
+theorem repopTree_ty (table : List FnEntry) : ∀ e e' ok, repopTree table e = some (e', ok) → e'.ty = e.ty
+  | .leaf t, e', ok, h => by simp only [repopTree, Option.some.injEq, Prod.mk.injEq] at h; rw [← h.1]
+  | .node t args, e', ok, h => by
+    simp only [repopTree] at h
+    cases hl : repopTreeL table args with
+    | none => simp [hl] at h
+    | some p => simp only [hl, Option.some.injEq, Prod.mk.injEq] at h; rw [← h.1]; rfl
+  | .call t name sig fn args, e', ok, h => by
+    simp only [repopTree] at h
+    cases hl : repopTreeL table args with
+    | none => simp [hl] at h
+    | some p =>
+      simp only [hl] at h
+      cases hf : lookupFn table name with
+      | none => simp only [hf, Option.some.injEq, Prod.mk.injEq] at h; rw [← h.1]; rfl
+      | some ds =>
+        simp only [hf] at h
+        cases hr : repopulate ds sig (tysOf p.1) with
+        | found i => simp only [hr, Option.some.injEq, Prod.mk.injEq] at h; rw [← h.1]; rfl
+        | notFound => simp only [hr, Option.some.injEq, Prod.mk.injEq] at h; rw [← h.1]; rfl
+        | panic => simp [hr] at h
+theorem repopTreeL_tys (table : List FnEntry) : ∀ es es' ok, repopTreeL table es = some (es', ok) → tysOf es' = tysOf es
+  | [], es', ok, h => by simp only [repopTreeL, Option.some.injEq, Prod.mk.injEq] at h; rw [← h.1]
+  | e :: es, es', ok, h => by
+    simp only [repopTreeL] at h
+    cases h1 : repopTree table e with
+    | none => simp [h1] at h
+    | some p1 =>
+      cases h2 : repopTreeL table es with
+      | none => simp [h1, h2] at h
+      | some p2 =>
+        simp only [h1, h2, Option.some.injEq, Prod.mk.injEq] at h
+        rw [← h.1]
+        simp only [tysOf]
+        rw [repopTree_ty table e p1.1 p1.2 h1, repopTreeL_tys table es p2.1 p2.2 h2]
+end
+
+mutual
+/-- **every call found again**: a predicate whose calls were all resolved by the typechecker's exact pass comes out of
+    JSON + Repopulate as it went in, and is accepted -/
+theorem repopTree_exact (hok : Gen.WireFunctions.table.all (fun e => pairwiseOk e.descs) = true) :
+    ∀ e, exactTyped Gen.WireFunctions.table e → repopTree Gen.WireFunctions.table (stripFns e) = some (e, true)
+  | .leaf _, _ => rfl
+  | .node t args, h => by
+    simp only [exactTyped] at h
+    simp [stripFns, repopTree, repopTreeL_exact hok args h]
+  | .call t name sig fn args, h => by
+    simp only [exactTyped] at h
+    obtain ⟨hargs, ds, i, d, hl, hex, hd, hsig, hfn⟩ := h
+    have ih := repopTreeL_exact hok args hargs
+    have ht := transport_exact ds (table_pairwise hok name ds hl) (tysOf args) i hex
+    simp only [transportPick, hd] at ht
+    subst hsig hfn
+    simp [stripFns, repopTree, ih, hl, ht]
+theorem repopTreeL_exact (hok : Gen.WireFunctions.table.all (fun e => pairwiseOk e.descs) = true) :
+    ∀ es, exactTypedL Gen.WireFunctions.table es → repopTreeL Gen.WireFunctions.table (stripFnsL es) = some (es, true)
+  | [], _ => rfl
+  | e :: es, h => by
+    simp only [exactTypedL] at h
+    simp [stripFnsL, repopTreeL, repopTree_exact hok e h.1, repopTreeL_exact hok es h.2]
+end
+
+mutual
+/-- **never another function**: whatever the typechecker attached, JSON + Repopulate does not panic, and if it
+    accepts the predicate (`outOk`), the predicate is exactly the one that was sent -/
+theorem repopTree_safe (hok : Gen.WireFunctions.table.all (fun e => pairwiseOk e.descs) = true) :
+    ∀ e, typechecked Gen.WireFunctions.table e →
+      ∃ e' ok, repopTree Gen.WireFunctions.table (stripFns e) = some (e', ok) ∧ (ok = true → e' = e)
+  | .leaf t, _ => ⟨.leaf t, true, rfl, fun _ => rfl⟩
+  | .node t args, h => by
+    simp only [typechecked] at h
+    obtain ⟨as, ok, hl, himp⟩ := repopTreeL_safe hok args h
+    refine ⟨.node t as, ok, by simp [stripFns, repopTree, hl], fun hk => ?_⟩
+    rw [himp hk]
+  | .call t name sig fn args, h => by
+    simp only [typechecked] at h
+    obtain ⟨hargs, ds, i, d, hl, htc, hd, hsig, hfn⟩ := h
+    obtain ⟨as, ok, hal, himp⟩ := repopTreeL_safe hok args hargs
+    have htys : tysOf as = tysOf args := by
+      rw [repopTreeL_tys _ _ _ _ hal, tysOf_stripFnsL]
+    have ht := transport_safe ds (table_pairwise hok name ds hl) (tysOf args) i htc
+    simp only [transportPick, hd] at ht
+    subst hsig hfn
+    rcases ht with ht | ht
+    · refine ⟨.call t name d.sig (some i) as, ok, by simp [stripFns, repopTree, hal, hl, htys, ht], fun hk => ?_⟩
+      rw [himp hk]
+    · exact ⟨.call t name d.sig none as, false, by simp [stripFns, repopTree, hal, hl, htys, ht], fun hk => by simp at hk⟩
+theorem repopTreeL_safe (hok : Gen.WireFunctions.table.all (fun e => pairwiseOk e.descs) = true) :
+    ∀ es, typecheckedL Gen.WireFunctions.table es →
+      ∃ es' ok, repopTreeL Gen.WireFunctions.table (stripFnsL es) = some (es', ok) ∧ (ok = true → es' = es)
+  | [], _ => ⟨[], true, rfl, fun _ => rfl⟩
+  | e :: es, h => by
+    simp only [typecheckedL] at h
+    obtain ⟨e', ok1, h1, i1⟩ := repopTree_safe hok e h.1
+    obtain ⟨es', ok2, h2, i2⟩ := repopTreeL_safe hok es h.2
+    refine ⟨e' :: es', ok1 && ok2, by simp [stripFnsL, repopTreeL, h1, h2], fun hk => ?_⟩
+    simp only [Bool.and_eq_true] at hk
+    rw [i1 hk.1, i2 hk.2]
+end
+
 end Octo.Wire
